@@ -89,6 +89,25 @@ Arguments inv {T X Y} l y.
    on arrays of any size): each chunk through the pointwise density, results written back in order ---------------------- *)
 Definition batched_eval {X T : Type} (f : X -> T) (chunks : list (list X)) : list T := concat (map (map f) chunks).
 
+(* ---- ImportanceFlowProposal.draw: samples and their rows of per-proposal densities travel as two parallel arrays ----------
+   every batch is filtered by the second-stage acceptance mask (finite log-prior, logW not +inf, row not all NaN / +inf) with
+   get_subset_arrays(accept, x, log_q_all) - the SAME mask on both arrays -, the kept parts are concatenated and both arrays
+   are cut to the first n entries. *)
+Fixpoint keep_by {A : Type} (mask : list bool) (l : list A) : list A :=
+  match mask, l with
+  | true :: m, x :: r => x :: keep_by m r
+  | false :: m, _ :: r => keep_by m r
+  | _, _ => []
+  end.
+Definition draw_batch (A B : Type) := (list bool * list A * list B)%type.       (* accept mask, points, density rows *)
+Definition draw_aligned {A B : Type} (n : nat) (bs : list (draw_batch A B)) : list (A * B) :=
+  combine (firstn n (concat (map (fun b => keep_by (fst (fst b)) (snd (fst b))) bs)))
+          (firstn n (concat (map (fun b => keep_by (fst (fst b)) (snd b)) bs))).
+(* refuted variant: the points are filtered, the rows are appended unfiltered and only trimmed at the end *)
+Definition draw_rows_unfiltered {A B : Type} (n : nat) (bs : list (draw_batch A B)) : list (A * B) :=
+  combine (firstn n (concat (map (fun b => keep_by (fst (fst b)) (snd (fst b))) bs)))
+          (firstn n (concat (map (fun b => snd b) bs))).
+
 (* ---- the oracle hypothesis, over the reals ---------------------------------------------------------------------------- *)
 From Coq Require Import Reals.
 Local Open Scope R_scope.
